@@ -52,6 +52,8 @@ func newScalarTable(inputSampleIDs []uint64, outputs []*model.Series, newAccumul
 
 func (t *scalarTable) aggregate(arg float64, vector model.StepVector) {
 	t.reset(arg)
+	// The output vector belongs to this step even if no sample is added.
+	t.timestamp = vector.T
 
 	for i := range vector.Samples {
 		t.addSample(vector.T, vector.SampleIDs[i], vector.Samples[i])
